@@ -237,7 +237,9 @@ def align_cover(ctx):
     ok = len(fails) == 1 and any(st[0] == "return" and st[1] is not None and any(x[0] == "adt" and x[2] == "Alignment" for x in T.sx_walk(st[1])) for st in fails[0][2])
     obs.append(Ob(r, "band-reject", ok, "a band whose rows fail the test is rejected with Alignment"))
     # per-row column checks
-    rows_let = [s for s in inner if s[0] == "let" and s[1].startswith("rows#")]
+    # (by role: the immutable local that is a sub-slice of the band)
+    rows_let = [s for s in inner if s[0] == "let" and not s[2] and s[3][0] == "call" and s[3][1].endswith("::index") and len(s[3][2]) == 2
+                and is_var(s[3][2][0], band) and adt_fields(s[3][2][1], "core::ops::Range")]
     il2 = [s for s in inner if s[0] == "for" and T.sx_calls(s[2], "slice::chunks")]
     ok = False
     if len(il2) == 1:
@@ -256,7 +258,10 @@ def align_cover(ctx):
             def is_idx(x, pred):
                 return x[0] == "call" and x[1].endswith("::eq") and x[2][0][0] == "index" and is_var(x[2][0][1], rowv) and pred(x[2][0][2])
             left = any(is_idx(p, lambda i: P(i) == {}) and p[2][1][0] == "const" and p[2][1][1].endswith("Bit::HIGH") for p in parts)
-            right = any(is_idx(p, lambda i: P(i) == LASTCOL) and is_var(p[2][1], "alignment_bit") for p in parts)
+            # the alternating bit: the mutable local of the band loop that starts LOW and is flipped inside the piece loop
+            alt = [s0[1].split("#")[0] for s0 in inner if s0[0] == "let" and s0[2] and s0[3][0] == "const" and s0[3][1].endswith("Bit::LOW")
+                   and any(st[0] == "assign" and is_var(st[1], s0[1].split("#")[0]) for st in T.stmt_walk(il2[0][3]))]
+            right = len(alt) == 1 and any(is_idx(p, lambda i: P(i) == LASTCOL) and is_var(p[2][1], alt[0]) for p in parts)
             rej = [s for s in il2[0][3] if s[0] == "if" and s[1][0] == "un" and is_var(s[1][2], chk[0][1].split("#")[0]) and any(st[0] == "return" for st in s[2])]
             ok = left and right and len(rej) == 1
     obs.append(Ob(r, "columns", ok, "every row piece has its first module checked against HIGH and its last module against the alternating bit"))
@@ -486,6 +491,7 @@ def render_geom(ctx):
     det = None
     if len(copy) == 1:
         body = copy[0][3]
+        BI = copy[0][1][0].split("#")[0] if len(copy[0][1]) == 2 and T.sx_calls(copy[0][2], "Iterator::enumerate") else None   # the index of `.enumerate()`
         li = [s for s in body if s[0] == "let" and s[2]]
         ao = [s for s in body if s[0] == "assignop" and s[1] == "AddAssign"]
         st = [s for s in body if s[0] == "assign"]
@@ -493,7 +499,7 @@ def render_geom(ctx):
             def shape(letv, add, dim, blk):
                 name = letv[1].split("#")[0]
                 e = letv[3]
-                base_ok = e[0] == "bin" and e[1] == ("Div" if dim == "row" else "Rem") and is_var(e[2], "b_i") and _self_field(e[3], "width")
+                base_ok = e[0] == "bin" and e[1] == ("Div" if dim == "row" else "Rem") and BI is not None and is_var(e[2], BI) and _self_field(e[3], "width")
                 a = add[3]
                 # 1 + (v / blk) * 2
                 add_ok = is_var(add[2], name) and a[0] == "bin" and a[1] == "Add" and ("lit", 1) in (a[2], a[3])
